@@ -36,6 +36,7 @@ O_APPEND = 0o2000
 O_NOFOLLOW = 0o400000
 O_DIRECTORY = 0o200000
 O_CLOEXEC = 0o2000000
+O_NONBLOCK = 0o4000
 
 
 class Crash(BaseException):
@@ -210,7 +211,7 @@ class PosixModel(object):
         return None
 
     # ------------------------------------------------------------ resolution
-    def resolve(self, path, follow_last):
+    def resolve(self, path, follow_last, base=None):
         if not isinstance(path, str):
             if isinstance(path, bytes):
                 path = path.decode('utf-8', 'surrogateescape')
@@ -233,7 +234,7 @@ class PosixModel(object):
             stack = [self.root]
             names = []
         else:
-            cw = self.path_of_node(self.cwd_node)
+            cw = self.path_of_node(self.cwd_node if base is None else base)
             if cw is None:
                 raise oserr(errno.ENOENT, orig)
             names = list(cw)
@@ -294,6 +295,14 @@ class PosixModel(object):
             return Res(None, None, self.root, (), last_kind if last_kind != 'norm' else 'root', trailing)
         return Res(stack[-2], names[-1], node, tuple(names), last_kind, trailing)
 
+    def _base(self, dir_fd):
+        if dir_fd is None:
+            return None
+        of = self._fd(dir_fd)
+        if of.node.kind != 'd':
+            raise oserr(errno.ENOTDIR)
+        return of.node
+
     def lookup(self, path, follow=True):
         """Node or None, no tick (oracle / setup use only)"""
         try:
@@ -315,14 +324,14 @@ class PosixModel(object):
         return impl(*args)
 
     # ---------------------------------------------------------------- queries
-    def stat(self, path, follow_symlinks=True):
-        return self._sys('stat' if follow_symlinks else 'lstat', self._stat, path, follow_symlinks)
+    def stat(self, path, follow_symlinks=True, dir_fd=None):
+        return self._sys('stat' if follow_symlinks else 'lstat', self._stat, path, follow_symlinks, dir_fd)
 
-    def lstat(self, path):
-        return self.stat(path, False)
+    def lstat(self, path, dir_fd=None):
+        return self.stat(path, False, dir_fd)
 
-    def _stat(self, path, follow):
-        r = self.resolve(path, follow)
+    def _stat(self, path, follow, dir_fd=None):
+        r = self.resolve(path, follow, self._base(dir_fd))
         if r.node is None:
             raise oserr(errno.ENOENT, path)
         return StatResult(r.node, self.dev_of(r.cpath), self.uid)
@@ -362,6 +371,11 @@ class PosixModel(object):
         return self._sys('scandir', self._scandir, path)
 
     def _scandir(self, path):
+        if isinstance(path, int):
+            node = self._fd(path).node
+            if node.kind != 'd':
+                raise oserr(errno.ENOTDIR)
+            return [(name, c.kind, c.ino) for name, c in node.children.items()]
         r = self.resolve(path, True)
         if r.node is None:
             raise oserr(errno.ENOENT, path)
@@ -410,13 +424,13 @@ class PosixModel(object):
         r.parent.children[r.name] = self._new('d', mode & 0o1777 & ~self.umask)
         self._touch_dir(r.parent)
 
-    def open(self, path, flags, mode=0o777):
-        return self._sys('open', self._open, path, flags, mode)
+    def open(self, path, flags, mode=0o777, dir_fd=None):
+        return self._sys('open', self._open, path, flags, mode, dir_fd)
 
-    def _open(self, path, flags, mode):
+    def _open(self, path, flags, mode, dir_fd=None):
         acc = flags & 3
         follow = not (flags & O_NOFOLLOW) and not ((flags & O_CREAT) and (flags & O_EXCL))
-        r = self.resolve(path, follow)
+        r = self.resolve(path, follow, self._base(dir_fd))
         node = r.node
         if node is None:
             if not (flags & O_CREAT):
@@ -496,23 +510,25 @@ class PosixModel(object):
         self._fd(fd)
         del self.fds[fd]
 
-    def unlink(self, path):
-        return self._sys('unlink', self._unlink, path)
+    def unlink(self, path, dir_fd=None):
+        return self._sys('unlink', self._unlink, path, dir_fd)
 
-    def _unlink(self, path):
-        r = self.resolve(path, False)
+    def _unlink(self, path, dir_fd=None):
+        r = self.resolve(_strip_for_rename(path), False, self._base(dir_fd))
         if r.node is None:
             raise oserr(errno.ENOENT, path)
+        if path.endswith('/') and r.node.kind != 'd':
+            raise oserr(errno.ENOTDIR, path)
         if r.node.kind == 'd':
             raise oserr(errno.EISDIR, path)
         del r.parent.children[r.name]
         self._touch_dir(r.parent)
 
-    def rmdir(self, path):
-        return self._sys('rmdir', self._rmdir, path)
+    def rmdir(self, path, dir_fd=None):
+        return self._sys('rmdir', self._rmdir, path, dir_fd)
 
-    def _rmdir(self, path):
-        r = self.resolve(path, False)
+    def _rmdir(self, path, dir_fd=None):
+        r = self.resolve(_strip_for_rename(path), False, self._base(dir_fd))
         if r.node is None:
             raise oserr(errno.ENOENT, path)
         if r.node.kind != 'd':
